@@ -141,17 +141,27 @@ where
     let (c_l, l_c) = local_client.split();
     let (c_s, s_c) = client_server.split();
 
+    // `forward` returns at the first error without flushing its sink: on failure the sink is closed here,
+    // so that what was already received from the failing side is still delivered to the other side
     let l_c_s = async {
-        match l_c.forward(c_s).await {
+        let mut c_s = c_s;
+        match l_c.forward(&mut c_s).await {
             Ok(_) => Err::<(), _>(relay::Result::Close(End::Local, End::Client)),
-            Err(e) => Err(relay::Result::Err(End::Local, End::Client, e)),
+            Err(e) => {
+                let _ = c_s.close().await;
+                Err(relay::Result::Err(End::Local, End::Client, e))
+            }
         }
     };
 
     let s_c_l = async {
-        match s_c.forward(c_l).await {
+        let mut c_l = c_l;
+        match s_c.forward(&mut c_l).await {
             Ok(_) => Err::<(), _>(relay::Result::Close(End::Server, End::Client)),
-            Err(e) => Err(relay::Result::Err(End::Server, End::Client, e)),
+            Err(e) => {
+                let _ = c_l.close().await;
+                Err(relay::Result::Err(End::Server, End::Client, e))
+            }
         }
     };
 
